@@ -237,7 +237,7 @@ def random_param_tree(seed: int) -> dict:
         for k, d in enumerate(ds):
             r = rng.random()
             if k and r < 0.12:
-                out[d] = rng.choice(["expected", {"expected": gen()}])
+                out[d] = rng.choice(["expected", {"expected": gen() or 1}])      # a falsy expected value is refused by Parameter
             else:
                 out[d] = {"value": (None if allow_null and r < 0.3 else gen())}
         return out
@@ -478,7 +478,7 @@ def pytest_runtest_logreport(report):
 '''
 
 
-def run_yaml_tests(tbs, yaml_text: str, tag: str, options=None):
+def run_yaml_tests(tbs, yaml_text: str, tag: str, options=None, how: str = "file"):
     """Write one YAML file under /var/tmp, run it through `run_tests`, return
     (exit status, [per-test outcome dicts]); the directory is removed afterwards.
     Per-test outcomes come from a conftest.py placed beside the file (pytest loads it as a local
@@ -493,9 +493,14 @@ def run_yaml_tests(tbs, yaml_text: str, tag: str, options=None):
     try:
         with open(os.path.join(d, "conftest.py"), "w") as f:
             f.write(CONFTEST)
-        path = os.path.join(d, "case.yaml")
+        # how: "file" (a path), "list" (a list of one path), "dir" (the directory), "yml" (other extension)
+        path = os.path.join(d, "case.yml" if how == "yml" else "case.yaml")
         with open(path, "w") as f:
             f.write(yaml_text)
+        if how == "list":
+            path = [path]
+        elif how == "dir":
+            path = d
         old = os.environ.get("PYTEST_ADDOPTS")
         os.environ["PYTEST_ADDOPTS"] = "-q -p no:cacheprovider --no-header -W ignore"
         buf = io.StringIO()
